@@ -72,6 +72,16 @@ M = {
  "c07_floating_in_border": ("rustzx-core/src/zx/controller.rs", "        if row < CANVAS_HEIGHT\n            && clocks < specs.clocks_screen_row - CLOCKS_PER_COL", "        if row < CANVAS_HEIGHT + 8\n            && clocks < specs.clocks_screen_row - CLOCKS_PER_COL"),
  "c07_mouse_ignores_a5": ("rustzx-core/src/zx/controller.rs", "self.mouse.is_some() && (port & 0x0121 == 0x0001)", "self.mouse.is_some() && (port & 0x0101 == 0x0001)"),
  "c07_ula_odd_too": ("rustzx-core/src/zx/controller.rs", "        } else if port & 0x0001 == 0 {\n            self.set_border_color", "        } else if port & 0x0001 == 0 || port & 0x00FF == 0x00FF {\n            self.set_border_color"),
+ # ---- C08
+ "c08_y_shuffle": ("rustzx-core/src/utils/screen.rs", "let y = (h & 0x07) | ((l >> 2) & 0x38) | ((h << 3) & 0xC0);", "let y = (h & 0x07) | ((l >> 2) & 0x38) | ((h << 3) & 0x40);"),
+ "c08_flash_32": ("rustzx-core/src/zx/video/screen.rs", "if self.frame_counter % 16 == 0 {", "if self.frame_counter % 32 == 0 {"),
+ "c08_switch_bank_ignored": ("rustzx-core/src/zx/video/screen.rs", "        if let Some(bank) = self.local_bank(bank) {\n            self.active_bank = bank;\n        }", "        if let Some(bank) = self.local_bank(bank) {\n            self.active_bank = bank & 0;\n        }"),
+ "c08_refresh_skips_bank7": ("rustzx-core/src/zx/controller.rs", "                for (idx, data) in self.memory.ram_page_data(7).iter().enumerate() {\n                    self.screen.update(idx as u16, 7, *data);\n                }", ""),
+ "c08_bright_bit7": ("rustzx-core/src/zx/video/colors.rs", "brightness: if (data & 0x40) != 0 {", "brightness: if (data & 0x80) != 0 {"),
+ "c08_c000_no_update": ("rustzx-core/src/zx/controller.rs", "        if let Page::Ram(bank) = self.memory.get_page(addr) {\n            self.screen\n                .update(addr % PAGE_SIZE as u16, bank as usize, data);\n        }", "        if let Page::Ram(bank) = self.memory.get_page(addr) {\n            if addr < 0xC000 {\n                self.screen\n                    .update(addr % PAGE_SIZE as u16, bank as usize, data);\n            }\n        }"),
+ "c08_read_origin_late": ("rustzx-core/src/zx/machine/mod.rs", ".clocks_first_pixel(14336)\n            .clocks_ula_read_shift(2)", ".clocks_first_pixel(14336)\n            .clocks_ula_read_shift(1000)"),
+ "c08_scr_no_refresh": ("rustzx-core/src/emulator/screenshot/scr.rs", "    // Update screen\n    emulator.controller.refresh_memory_dependent_devices();", "    // Update screen"),
+ "c08_fastload_memory_only": ("rustzx-core/src/emulator/fastload/tap.rs", "emulator.controller.write_internal(dest, current_byte);", "emulator.controller.memory.write(dest, current_byte);"),
 }
 
 def main():
